@@ -44,6 +44,36 @@ const TYPE_SHIFT: u32 = 24;
 const TYPE_MASK: u32 = 0x3F << TYPE_SHIFT;
 const OFFSET_MASK: u32 = 0x00FF_FFFF;
 
+/// Length prefix of nested strings and keys: u16, or 0xFFFF followed by a u32 for >= 65535 bytes.
+const LONG_STR_MARKER: u16 = u16::MAX;
+
+pub(crate) fn write_str_prefixed(buf: &mut Vec<u8>, s: &str) {
+    if s.len() >= LONG_STR_MARKER as usize {
+        buf.extend(LONG_STR_MARKER.to_le_bytes());
+        buf.extend((s.len() as u32).to_le_bytes());
+    } else {
+        buf.extend((s.len() as u16).to_le_bytes());
+    }
+    buf.extend(s.as_bytes());
+}
+
+fn read_str_prefixed(data: &[u8], offset: usize) -> Result<&[u8]> {
+    let short = data
+        .get(offset..offset + 2)
+        .ok_or_else(|| eyre::eyre!("string length read failed"))?;
+    let len16 = u16::from_le_bytes([short[0], short[1]]);
+    let (start, len) = if len16 == LONG_STR_MARKER {
+        let long = data
+            .get(offset + 2..offset + 6)
+            .ok_or_else(|| eyre::eyre!("string length read failed"))?;
+        (offset + 6, u32::from_le_bytes([long[0], long[1], long[2], long[3]]) as usize)
+    } else {
+        (offset + 2, len16 as usize)
+    };
+    data.get(start..start + len)
+        .ok_or_else(|| eyre::eyre!("string data out of bounds"))
+}
+
 #[derive(Debug, Clone, PartialEq)]
 pub enum JsonbValue<'a> {
     Null,
@@ -129,12 +159,7 @@ impl<'a> JsonbView<'a> {
         let offset = Self::entry_offset(key_entry);
         let data_section = &self.0[self.data_start()..];
 
-        let len_bytes: [u8; 2] = data_section[offset..offset + 2]
-            .try_into()
-            .map_err(|_| eyre::eyre!("key length read failed"))?;
-        let len = u16::from_le_bytes(len_bytes) as usize;
-
-        let key_bytes = &data_section[offset + 2..offset + 2 + len];
+        let key_bytes = read_str_prefixed(data_section, offset)?;
         std::str::from_utf8(key_bytes).map_err(|e| eyre::eyre!("invalid UTF-8 in jsonb key: {}", e))
     }
 
@@ -159,11 +184,7 @@ impl<'a> JsonbView<'a> {
             }
             JSONB_TYPE_STRING => {
                 let data_section = &self.0[self.data_start()..];
-                let len_bytes: [u8; 2] = data_section[offset..offset + 2]
-                    .try_into()
-                    .map_err(|_| eyre::eyre!("string length read failed"))?;
-                let len = u16::from_le_bytes(len_bytes) as usize;
-                let str_bytes = &data_section[offset + 2..offset + 2 + len];
+                let str_bytes = read_str_prefixed(data_section, offset)?;
                 let s = std::str::from_utf8(str_bytes)
                     .map_err(|e| eyre::eyre!("invalid UTF-8 in jsonb string: {}", e))?;
                 Ok(JsonbValue::String(s))
@@ -584,8 +605,7 @@ impl JsonbBuilder {
 
                 for (i, (key, val)) in sorted_entries.iter().enumerate() {
                     let key_offset = data_buf.len();
-                    data_buf.extend((key.len() as u16).to_le_bytes());
-                    data_buf.extend(key.as_bytes());
+                    write_str_prefixed(&mut data_buf, key);
 
                     let key_entry =
                         FLAG_IS_KEY | FLAG_IS_VARIABLE | (key_offset as u32 & OFFSET_MASK);
@@ -618,8 +638,7 @@ impl JsonbBuilder {
             }
             JsonbBuilderValue::String(s) => {
                 let offset = data_buf.len();
-                data_buf.extend((s.len() as u16).to_le_bytes());
-                data_buf.extend(s.as_bytes());
+                write_str_prefixed(data_buf, s);
                 FLAG_IS_VARIABLE
                     | ((JSONB_TYPE_STRING as u32) << TYPE_SHIFT)
                     | (offset as u32 & OFFSET_MASK)
